@@ -415,3 +415,22 @@ Proof.
   pose proof (Zfloor_lb (gR e d)). pose proof (Zfloor_ub (gR e d)).
   lra.
 Qed.
+
+(* ------------------------------------------------------------------ C12: delays are pessimistic *)
+(* an as-of instant taken earlier (the daemon reads the clock before it queries chronyd) can only
+   enlarge the half-width a client computes *)
+Theorem halfwidth_antitone_as_of c c' mono : ceb_inR c -> ceb_inR c' -> ts_inR mono -> c_drift c < 1000000000 ->
+  c_bound c' = c_bound c -> c_drift c' = c_drift c -> ns (c_as_of c') <= ns (c_as_of c) ->
+  halfwidth c mono <= halfwidth c' mono.
+Proof.
+  intros (Ha & _ & Hb & Hdr) (Ha' & _ & _ & _) Hm Hd Eb Ed Hle. unfold halfwidth, elapsed. rewrite Eb, Ed.
+  pose proof (ns_range _ Ha). pose proof (ns_range _ Ha'). pose proof (ns_range _ Hm). unfold SECMAX, NS in *.
+  assert (growth (Z.max 0 (ns mono - ns (c_as_of c))) (c_drift c) <= growth (Z.max 0 (ns mono - ns (c_as_of c'))) (c_drift c)).
+  { apply growth_mono; unfold EMAX, DOK; lia. }
+  lia.
+Qed.
+
+(* a delay between the client's realtime read and its (later) monotonic read can only enlarge it *)
+Theorem halfwidth_delay_pessimistic c mono mono' : ceb_inR c -> ts_inR mono -> ts_inR mono' ->
+  c_drift c < 1000000000 -> ns mono <= ns mono' -> halfwidth c mono <= halfwidth c mono'.
+Proof. exact (halfwidth_monotone c mono mono'). Qed.
